@@ -55,6 +55,8 @@ pub enum Ob {
     StreamEnd { stream: usize },
     Ctx { cmd: &'static str, res: String },
     Panic { task: String, msg: String },
+    /// an invariant evaluated by the executor itself was broken (rule, detail)
+    Broken { rule: &'static str, detail: String },
 }
 
 impl Ob {
@@ -67,6 +69,7 @@ impl Ob {
             Ob::StreamEnd { stream } => format!("stream{}:END", stream),
             Ob::Ctx { cmd, res } => format!("ctx.{}:{}", cmd, res),
             Ob::Panic { task, msg } => format!("PANIC in {}: {}", task, msg),
+            Ob::Broken { rule, detail } => format!("BROKEN {}: {}", rule, detail),
         }
     }
 }
@@ -197,6 +200,9 @@ pub struct World {
     pub total_polls: u64,
     pub wire_generation: u32,
     runq: RunQ,
+    /// fire-and-forget operations (QoS 0 publish, disconnect): complete "once written"
+    fnf_ops: Vec<usize>,
+    fnf_reported: bool,
 }
 
 impl World {
@@ -263,6 +269,8 @@ impl World {
         let runq: RunQ = Arc::new(std::sync::Mutex::new(std::collections::BTreeSet::new()));
         let mut w = World {
             runq: runq.clone(),
+            fnf_ops: vec![],
+            fnf_reported: false,
             chz,
             wire: wire.clone(),
             sh,
@@ -321,6 +329,11 @@ impl World {
         let op = self.ops.len();
         let sh = self.sh.clone();
         sh.borrow_mut().rsps.push(None);
+        match &spec {
+            OpSpec::Publish(p) if p.qos() == 0 => self.fnf_ops.push(op),
+            OpSpec::Disconnect(_) => self.fnf_ops.push(op),
+            _ => {}
+        }
         let fut: BoxFut = match spec {
             OpSpec::Publish(p) => Box::pin(async move {
                 let r = h.publish(p.opts()).await;
@@ -590,6 +603,9 @@ impl World {
             }
             // quiescent among runnable tasks
             if self.wire.borrow().write_blocked && self.ctx.alive() && !self.ctx.held {
+                // The context is parked inside a write the transport has not accepted yet: a
+                // QoS 0 publish / disconnect must not have completed ahead of its packet.
+                self.check_written_before_completed();
                 // the transport becomes writable again
                 self.wire.borrow_mut().wake_writer();
                 continue;
@@ -608,6 +624,40 @@ impl World {
                 continue;
             }
             break;
+        }
+    }
+
+    fn check_written_before_completed(&mut self) {
+        if self.fnf_reported || self.fnf_ops.is_empty() {
+            return;
+        }
+        let (done, written) = {
+            let sh = self.sh.borrow();
+            let done = sh
+                .log
+                .iter()
+                .filter(|o| matches!(o, Ob::Done { op, res } if res == "Ok" && self.fnf_ops.contains(op)))
+                .count();
+            let written = sh
+                .log
+                .iter()
+                .filter(|o| match o {
+                    Ob::Wire(CPacket::Publish(p)) => p.qos == 0,
+                    Ob::Wire(CPacket::Disconnect(_)) => true,
+                    _ => false,
+                })
+                .count();
+            (done, written)
+        };
+        if done > written {
+            self.fnf_reported = true;
+            self.sh.borrow_mut().log.push(Ob::Broken {
+                rule: "completed-before-written",
+                detail: format!(
+                    "{} QoS 0 publish / disconnect operation(s) completed Ok while only {} such packet(s) are completely on the wire (the transport has not accepted the rest yet)",
+                    done, written
+                ),
+            });
         }
     }
 
